@@ -11,7 +11,7 @@ from types import SimpleNamespace
 
 import numpy as np
 
-from common import F, Toks, qtok, ztok
+from common import D as F, Toks, qtok, ztok
 
 LABELS = None
 
